@@ -53,17 +53,7 @@ func Main(args []string) int {
 			fmt.Fprintln(os.Stderr, err)
 			return 2
 		}
-		vs := c.Replay(cj)
-		fmt.Printf("replay of %s: case %s\n", args[2], string(cj))
-		if len(vs) == 0 {
-			fmt.Println("no violation on this tree")
-			return 0
-		}
-		for _, v := range vs {
-			fmt.Printf("violation sig=%s: %s\n", v.Sig, v.Msg)
-		}
-		fmt.Printf("VIOLATION property=%s replay=%s\n", c.Property, args[2])
-		return 1
+		return ev.ReportReplay(c.Property, args[2], cj, c.Replay(cj))
 	}
 	r := ev.NewRun(c.Property, "vcheck "+c.Property)
 	r.Rerun = c.Replay
